@@ -279,11 +279,23 @@ Proof.
   apply andb_true_iff in Hx. destruct Hx as [Hx _].
   exact (ps_wf_mem_valid p x Hp Hx).
 Qed.
-Lemma ps_containedin_spec p o :
-  ps_wf p -> (ps_containedin p o = true <->
-              forall n, imem n (ps_ports p) = true -> imem n (ps_ports o) = true).
+Lemma ps_containedin_ports p o : ps_containedin p o = true -> isubset (ps_ports p) (ps_ports o) = true.
+Proof. unfold ps_containedin. intros H. apply andb_true_iff in H. apply H. Qed.
+Lemma ps_containedin_numeric p o :
+  ps_named p = [] -> ps_containedin p o = isubset (ps_ports p) (ps_ports o).
+Proof. intros H. unfold ps_containedin. rewrite H. apply andb_true_r. Qed.
+Lemma ps_containedin_sound p o :
+  ps_wf p -> ps_containedin p o = true ->
+  forall n, imem n (ps_ports p) = true -> imem n (ps_ports o) = true.
 Proof.
-  intros [Hc _]. unfold ps_containedin. apply isubset_spec. exact Hc.
+  intros [Hc _] H. apply ps_containedin_ports in H. apply (isubset_spec _ _ Hc). exact H.
+Qed.
+Lemma ps_containedin_spec p o :
+  ps_wf p -> ps_named p = [] ->
+  (ps_containedin p o = true <->
+   forall n, imem n (ps_ports p) = true -> imem n (ps_ports o) = true).
+Proof.
+  intros [Hc _] Hn. rewrite (ps_containedin_numeric p o Hn). apply isubset_spec. exact Hc.
 Qed.
 Lemma ps_add_range_ports p lo hi n :
   ps_wf p -> imem n (ps_ports (ps_add_range p lo hi)) = imem n (ps_ports p) || in_ivl n (lo, hi).
@@ -558,8 +570,8 @@ Proof.
   intros Hm. destruct mine as [ps|], other as [ops|]; cbn [sub_entry opt_mem negb].
   - pose proof (Hm ps eq_refl) as Hwf.
     destruct (ps_containedin ps ops) eqn:E; cbn [opt_mem].
-    + rewrite (ps_containedin_spec ps ops Hwf) in E. specialize (E n).
-      destruct (imem n (ps_ports ps)); [|reflexivity]. rewrite E by reflexivity. reflexivity.
+    + pose proof (ps_containedin_sound ps ops Hwf E n) as E'.
+      destruct (imem n (ps_ports ps)); [|reflexivity]. rewrite E' by reflexivity. reflexivity.
     + apply ps_subtract_ports. exact Hwf.
   - rewrite andb_true_r. reflexivity.
   - reflexivity.
@@ -579,7 +591,8 @@ Proof.
   apply opt_P_some. destruct (Hm ps eq_refl) as (H1 & H2 & _).
   split; [apply ps_subtract_wf; exact H1|].
   split; [apply ps_subtract_numeric; [exact H2|exact (Ho ops eq_refl)]|].
-  unfold ps_containedin, isubset in E. unfold ps_subtract. cbn [ps_ports].
+  rewrite (ps_containedin_numeric ps ops (proj1 H2)) in E.
+  unfold isubset in E. unfold ps_subtract. cbn [ps_ports].
   intros E2. rewrite E2 in E. cbn [iempty] in E. discriminate E.
 Qed.
 Lemma sub_entry_full mine other :
@@ -796,7 +809,7 @@ Proof.
     apply andb_true_iff in Hd. destruct Hd as [Hv Hm]. rewrite Hv. cbn [andb].
     destruct (cs_get c p) as [ps|] eqn:E1; cbn [opt_mem] in Hm; [|discriminate Hm].
     destruct (cs_get o p) as [ops|] eqn:E2; [|discriminate H]. cbn [opt_mem].
-    apply (ps_containedin_spec ps ops (Hc p ps E1)); assumption.
+    apply (ps_containedin_sound ps ops (Hc p ps E1)); assumption.
 Qed.
 
 (* ---------- canonicity on name-free sets ---------- *)
@@ -891,13 +904,13 @@ Proof.
   - apply cs_ninv_iff in Hc. destruct Hc as (Hgc & _ & _).
     apply forallb_protos. intros p.
     destruct (cs_get c p) as [ps|] eqn:E1; [|reflexivity].
-    pose proof (Hgc p ps E1) as Hgood. pose proof Hgood as (Hwf & _ & _).
+    pose proof (Hgc p ps E1) as Hgood. pose proof Hgood as (Hwf & Hnumeric & _).
     assert (Hm : forall n, imem n (ps_ports ps) = true -> opt_mem (cs_get o p) n = true).
     { intros n Hn. pose proof (ps_wf_mem_valid ps n Hwf Hn) as Hv.
       specialize (Hsub p n). rewrite !cs_denote_eq, Eac, Eao, E1, Hv in Hsub.
       cbn [opt_mem orb andb] in Hsub. exact (Hsub Hn). }
     destruct (cs_get o p) as [ops|] eqn:E2.
-    + apply (ps_containedin_spec ps ops Hwf). exact Hm.
+    + apply (ps_containedin_spec ps ops Hwf (proj1 Hnumeric)). exact Hm.
     + destruct (ps_good_member ps Hgood) as (x & Hx & _). specialize (Hm x Hx).
       cbn [opt_mem] in Hm. discriminate Hm.
 Qed.
